@@ -580,11 +580,14 @@ theorem filterMap_congr' {α β} {f g : α → Option β} {l : List α} (h : ∀
     have h2 := ih (fun a ha => h a (by simp [ha]))
     simp only [List.filterMap_cons, h1, h2]
 
+theorem sameFields_refl (x : String) : Gaftools.Spec.Sort.sameFields x x = true := by
+  simp [Gaftools.Spec.Sort.sameFields]
+
 theorem zip_suffix_all (l : List Aln) :
-    (List.zip l (l.map (fun a => (a.offset, suffix a)))).all (fun (a, (_, sfx)) => sfx == suffix a) = true := by
+    (List.zip l (l.map (fun a => (a.offset, suffix a)))).all (fun (a, (_, sfx)) => Gaftools.Spec.Sort.sameFields sfx (suffix a)) = true := by
   induction l with
   | nil => rfl
-  | cons a l ih => simp [ih]
+  | cons a l ih => simp [ih, sameFields_refl]
 
 theorem filter_cast_range (n i : Nat) (hi : i < n) :
     (((List.range n).map (fun (j : Nat) => (j : Int))).filter (· == (i : Int))).length = 1 := by
